@@ -44,7 +44,7 @@ CLAIMED["C10"] = ("(a) every allocation site's size expression (linear form over
 CLAIMED["C16"] = ("(a) typestate over sexp_gc / sexp_destroy_context: mark*, weak reset, finalize, sweep in that order on every path; "
     "(b) Ephemeron type row: key is the single weak slot, value the one extra slot, neither strongly traced, and a weak-column reader can reach the marker; "
     "(c) every close/fclose of a fileno's descriptor or port stream in any unit (incl. generated stubs) is dominated by the owner's openp test and the store openp=0; every refcount decrement observes its zero transition, counts of filenos not allocated on the spot are only incremented / decremented, and the function that stores a fileno into a port increments its count; "
-    "(e) a non-owning cpointer wrapping memory reached through another cpointer's C value names that object as parent (generated struct getters, on the re-generated stubs). "
+    "(e) a non-owning cpointer wrapping memory reached through another cpointer's C value names that object as parent (generated struct getters, on the re-generated stubs); (f) no loop over a cursor is re-entered with the cursor exhausted (the second finalization pass). "
     "(d) every reference field of every type is traced, so an owner keeps the descriptor object it owns alive. "
     "Necessary conditions of 'exactly once / only when unreachable'; reachability timing itself is not decided.",
     "typestate over the CFG (phase automaton), table/layout agreement, dominance (guard + flag store dominate release), call-graph reachability",
